@@ -1106,6 +1106,31 @@ static int mode_concrete(int cases)
         for (int i = 0; i < g0.nr(); i++) for (int j = 0; j < g0.ntheta(); j++) out[(size_t)i * g0.ntheta() + j] = l0.solution()[g0.index(i, j)];
         printf("COUT x0=%s out=%s\n", hexvec(x0).c_str(), hexvec(out).c_str());
     }
+    // the nested-iteration start-up (initializeSolution() with FMG) executed inside the model: 2 and 3 levels, every FMG cycle type,
+    // 0..2 FMG iterations, plain and extrapolated
+    for (int c = 0; c < (cases + 2) / 3; c++) {
+        int L = c % 2 == 0 ? 2 : 3;
+        int fk = rng.range(0, 2), fi = rng.range(0, 2), extrap = rng.range(0, 1), nu1 = rng.range(0, 2), nu2 = rng.range(0, 2);
+        bool fgs = extrap && rng.coin(0.3);
+        Opts o = base_opts(rng, L == 2 ? 3 : 4);
+        o.set("ntheta_exp", 4);
+        o.set("maxLevels", L); o.set("preSmoothingSteps", nu1); o.set("postSmoothingSteps", nu2); o.set("multigridCycle", 0);
+        o.set("extrapolation", extrap ? (fgs ? 2 : 1) : 0); o.set("FMG", 1); o.set("FMG_cycle", fk); o.set("FMG_iterations", fi); o.set("maxOpenMPThreads", 1);
+        o.set("cacheDensityProfileCoefficients", 1); o.set("cacheDomainGeometry", 1);
+        GMGPolar g;
+        o.apply(g);
+        g.setup();
+        GMGPolarVerif v(g);
+        if (v.levels() != L) { printf("SKIP levels=%d wanted=%d\n", v.levels(), L); continue; }
+        printf("CON case=%d L=%d kind=%d extrap=%d fgs=%d nu1=%d nu2=%d strat=%s fmg=1 fmg_it=%d opts=[%s]\n", 1000 + c, L, fk, extrap, (int)v.fgs(), nu1, nu2, o.kv["stencilDistributionMethod"].c_str(), fi, o.str().c_str());
+        for (int l = 0; l < L; l++) emit_level_of("CLV", l, v.geo(), v.coef(), v.level(l).grid(), g.DirBC_Interior(), v.level(l).rhs());
+        for (int l = 0; l < L; l++) { fill_garbage(rng, v.level(l).residual()); fill_garbage(rng, v.level(l).solution()); if (l > 0) fill_garbage(rng, v.level(l).error_correction()); }
+        v.initializeSolution();
+        const PolarGrid& g0 = v.level(0).grid();
+        std::vector<double> out(g0.numberOfNodes());
+        for (int i = 0; i < g0.nr(); i++) for (int j = 0; j < g0.ntheta(); j++) out[(size_t)i * g0.ntheta() + j] = v.level(0).solution()[g0.index(i, j)];
+        printf("COUT x0=- out=%s\n", hexvec(out).c_str());
+    }
     printf("end\n");
     return 0;
 }
